@@ -131,6 +131,15 @@ pub fn b3ref(era: Era) -> Case {
     c
 }
 
+/// The reference-script bases every sweep explores next to `bases()`: B3ref of Babbage and
+/// Conway, and the Conway one with map-form redeemers.
+pub fn reference_script_bases() -> Vec<Case> {
+    let mut m = b3ref(Era::Conway);
+    m.base = "B3refm-plutus-v2-reference-script-map-redeemers".into();
+    m.tx.wits.redeemers_map = true;
+    vec![b3ref(Era::Babbage), b3ref(Era::Conway), m]
+}
+
 /// All post-Byron bases.
 pub fn bases() -> Vec<Case> {
     let mut v = vec![];
